@@ -15,6 +15,7 @@
 mod ctx;
 mod gen;
 mod rng;
+mod same;
 mod vx;
 
 mod c01;
